@@ -217,3 +217,15 @@ MANIFEST_TEXT["C16"] = {
     "note": "Partial: the model proves there is nothing to race on and ties that to the source through the write-site inventory; actual interleavings are only explored with the race detector. Trusted: Lean kernel, extractor (syntactic provenance analysis), harness, Go race detector.",
     "technique": "Lean 4 proof over a heap model + regenerated write-site/alias inventories + snapshot and race-detector exploration",
 }
+
+PROPS["C10"] = {
+    "project": strip_cls,
+    "rule": "crash-only oracle (any panic; any call not returned after 5 s) over: the complete C09 generator (abi.QuoteToProto on every truncation, size-field boundary pairs, mutants; QuoteToAbiBytes / CheckQuoteV4 / sub-serialisers on structural message mutants), the C08 generator (validate.TdxQuote on option variants and structural mutants), the C13 generator (pcs.PckCertificateExtensions on malformed and mutated DER), the C18 generator (GetRtmrsFromTdQuote, ParseCcelWithTdQuote), plus verify.RawTdxQuote / validate.RawTdxQuote on truncations and mutants of the Intel sample, nil / typed-nil / wrong-type arguments for every entry point, structurally arbitrary messages and arbitrary certificate-chain bytes through verify.TdxQuote and ExtractChainFromQuote, arbitrary TCB-Info / QE-Identity bodies (empty, non-JSON, wrong shape, null members, huge numbers, bad hex, unknown status, deep nesting, byte mutants of a genuine body), every issuer-chain header fault, garbage / failing / very large CRLs; non-trivial = every case; distinct by case line",
+    "trusted_base": ["panics or hangs INSIDE encoding/pem, crypto/x509, encoding/json, encoding/asn1, protobuf and go-eventlog on adversarial bytes are only explored (recover + watchdog), not proved; the proved part is every slice, index, type assertion and dereference the repository's own code performs, as modelled"],
+    "assumptions": ["SHA-256 returns 32 bytes (hypothesis of verify_TdxQuote_never_panics)"],
+}
+MANIFEST_TEXT["C10"] = {
+    "text": "One Lean theorem per public entry point, each for every input: QuoteToProto (all byte strings), QuoteToAbiBytes / CheckQuoteV4 / the three sub-serialisers (all messages incl. nil), validate.TdxQuote and RawTdxQuote (all messages, all options), verify.TdxQuote and RawTdxQuote (all messages, all worlds of decoded chain / collateral / CRL / header facts, all options), ExtractChainFromQuote, PckCertificateExtensions (all decoded trees), GetRtmrsFromTdQuote; model functions are structurally recursive (no fuel); witnesses for F1, F2, F7, F12. The models carry a panic outcome at every slice / index / type assertion / nil dereference of the repository's own code; the correspondence re-runs all adversarial generators under a crash-only oracle with a 5 s watchdog.",
+    "note": "Partial: crashes or hangs inside the standard library, protobuf or go-eventlog on adversarial bytes are only explored. Trusted: Lean kernel, extractor, harness.",
+    "technique": "Lean 4 proof (panic-carrying Go-faithful models) + crash-only differential exploration",
+}
